@@ -1,6 +1,8 @@
 package props
 
 import (
+	"sync"
+	_ "time/tzdata" // real time zones also where the system has no zoneinfo
 	"fmt"
 	"time"
 
@@ -83,6 +85,60 @@ func c18Time(r *fw.Rand, ns int64) time.Time {
 	return time.Unix(0, ns)
 }
 
+// c18Zone: a real time zone with its offset changes (DST switches, political changes) between 1970 and the era end.
+type c18Zone struct {
+	loc         *time.Location
+	transitions []int64 // unix seconds: the first second with the new offset
+}
+
+var c18Zones = sync.OnceValue(func() []c18Zone {
+	var out []c18Zone
+	for _, name := range []string{"America/New_York", "Europe/Berlin", "Australia/Lord_Howe", "America/St_Johns", "Pacific/Apia", "Asia/Kathmandu", "Africa/Casablanca"} {
+		loc, err := time.LoadLocation(name)
+		if err != nil {
+			continue
+		}
+		z := c18Zone{loc: loc}
+		off := func(s int64) int { _, o := time.Unix(s, 0).In(loc).Zone(); return o }
+		const day = 86400
+		prev := off(0)
+		for s := int64(day); s < eraEndUnix; s += day {
+			if o := off(s); o != prev {
+				lo, hi := s-day, s // offset changes somewhere in (lo, hi]
+				for hi-lo > 1 {
+					mid := (lo + hi) / 2
+					if off(mid) == prev {
+						lo = mid
+					} else {
+						hi = mid
+					}
+				}
+				z.transitions = append(z.transitions, hi)
+				prev = o
+			}
+		}
+		out = append(out, z)
+	}
+	return out
+})
+
+// c18Zoned returns an instant within two hours of an offset change of a real zone (the repeated or skipped local hour), carried in that zone.
+func c18Zoned(r *fw.Rand, margin int64) (time.Time, bool) {
+	zs := c18Zones()
+	if len(zs) == 0 {
+		return time.Time{}, false
+	}
+	z := zs[r.Intn(len(zs))]
+	if len(z.transitions) == 0 {
+		return time.Time{}, false
+	}
+	ns := z.transitions[r.Intn(len(z.transitions))]*1e9 + int64(r.Range(-7200, 7200))*1e9 + int64(r.Pick(0, 1, 999999999, r.Intn(1000000000)))
+	if ns < 0 || ns > eraEndUnix*1e9-margin-1 {
+		return time.Time{}, false
+	}
+	return time.Unix(0, ns).In(z.loc), true
+}
+
 func abs64(x int64) int64 {
 	if x < 0 {
 		return -x
@@ -95,6 +151,12 @@ func c18Capture(c *fw.Ctx, _ int) {
 	for k := 0; k < 256; k++ {
 		ns, icl := c18Instant(r, 0)
 		t := c18Time(r, ns)
+		if r.Chance(1, 8) {
+			if zt, ok := c18Zoned(r, 0); ok {
+				t, ns, icl = zt, zt.UnixNano(), "zone-offset-change"
+				c.Count("instants_in_real_zones_near_an_offset_change", 1)
+			}
+		}
 		if t.UnixNano() != ns {
 			ns = t.UnixNano() // (a value derived from time.Now() may differ by the clock's granularity)
 		}
@@ -202,8 +264,17 @@ func c18Estimate(c *fw.Ctx, _ int) {
 		}
 		ns, icl := c18Instant(r, margin)
 		send := c18Time(r, ns)
+		if r.Chance(1, 8) {
+			if zt, ok := c18Zoned(r, margin); ok {
+				send, icl = zt, "zone-offset-change"
+				c.Count("instants_in_real_zones_near_an_offset_change", 1)
+			}
+		}
 		ns = send.UnixNano()
 		recv := c18Time(r, ns+delay)
+		if icl == "zone-offset-change" && r.Bool() {
+			recv = time.Unix(0, ns+delay).In(send.Location())
+		}
 		if recv.UnixNano() != ns+delay {
 			recv = time.Unix(0, ns+delay)
 		}
